@@ -244,3 +244,9 @@ def run(rep, facts, tier):
                     ok = False
         rep.check(ok, 'R02.4', 'handle_heartbeat_msg/answers', 'missing numbers or a non-final HEARTBEAT => ACKNACK sent',
                   'a HEARTBEAT that shows missing samples (or is not final) is not always answered with an ACKNACK', c.where())
+
+    # ------------------------------------------------------------ R02.5 (shared with C01 R01.6 / C03 R03.6)
+    rep.rule('R02.5', 'GAP bookkeeping at the reader: an exclusive "..._before" bound (gapList.base, HEARTBEAT.first) used as the end of an inclusive range is decremented; otherwise a sample the '
+                      'writer still holds is marked unavailable, never requested and acknowledged: the pair goes quiet with the sample missing for good')
+    from rules.C01 import rule_exclusive_bound
+    rule_exclusive_bound(rep, fx, 'R02.5')
